@@ -114,9 +114,10 @@ CallsOf(fn, s) ==
          {Call(fn, <<AS(UrlEncode(s, m).s)>>, RS(Trim(s)), TRUE) : m \in {"QUERY", "PATH"}}
 
 Init == x = Phase("root", "")
-Next == \/ x.ph = "root" /\ \E f \in Fns : x' = Phase("fn", f)
-        \/ x.ph = "fn" /\ \E s \in Subjects(x.fn) : x' = [Phase("subject", x.fn) EXCEPT !.args = <<AS(s)>>]
-        \/ x.ph = "subject" /\ x' \in CallsOf(x.fn, x.args[1].s)
+PickFunction == x.ph = "root" /\ \E f \in Fns : x' = Phase("fn", f)
+PickSubject == x.ph = "fn" /\ \E s \in Subjects(x.fn) : x' = [Phase("subject", x.fn) EXCEPT !.args = <<AS(s)>>]
+MakeCall == x.ph = "subject" /\ x' \in CallsOf(x.fn, x.args[1].s)
+Next == PickFunction \/ PickSubject \/ MakeCall
 Spec == Init /\ [][Next]_x
 IsCall == x.ph = "call"
 
